@@ -94,6 +94,11 @@ class IndexedSymbol(DimensionSymbol, IndexedBase):  # type: ignore[misc]  # pyli
         self.index = index or global_index
         super().__init__(display_name, dimension, display_latex=display_latex)
 
+    def doit(self, **_hints: Any) -> IndexedSymbol:
+        # There is nothing to evaluate in an indexed symbol. SymPy would rebuild it from its label
+        # otherwise, and the rebuilt object has neither the display names nor the dimension.
+        return self
+
     def _eval_nseries(self, x: Any, n: Any, logx: Any, cdir: Any) -> Any:
         pass
 
